@@ -43,6 +43,9 @@ type c10T struct {
 	State  string `json:"state"`
 	Series int64  `json:"series"`
 	Total  int64  `json:"total"`
+	// NoAddr: the request carries this target without an __address__ label (the API accepts it; it is an
+	// assigned target like any other for the bookkeeping)
+	NoAddr bool `json:"noAddr,omitempty"`
 }
 
 type c10Case struct {
@@ -182,8 +185,11 @@ func runC10(rec *vkit.Recorder, c *c10Case) []vkit.Violation {
 			for job, ts := range op.Assign {
 				req.Targets[job] = []*target.Target{}
 				for _, t := range ts {
-					req.Targets[job] = append(req.Targets[job], &target.Target{Hash: t.Hash, TargetState: t.State, Series: t.Series, TotalSeries: t.Total,
-						Labels: lbls("__address__", c10Addr(t.Hash), "__scheme__", "http", "__metrics_path__", "/metrics", "job", job)})
+					ls := lbls("__address__", c10Addr(t.Hash), "__scheme__", "http", "__metrics_path__", "/metrics", "job", job)
+					if t.NoAddr {
+						ls = lbls("__scheme__", "http", "__metrics_path__", "/metrics", "job", job)
+					}
+					req.Targets[job] = append(req.Targets[job], &target.Target{Hash: t.Hash, TargetState: t.State, Series: t.Series, TotalSeries: t.Total, Labels: ls})
 				}
 			}
 			before := time.Now()
@@ -278,9 +284,20 @@ func runC10(rec *vkit.Recorder, c *c10Case) []vkit.Violation {
 	}
 	var cls []string
 	nt := false
+	for _, op := range c.Ops {
+		for _, ts := range op.Assign {
+			for _, ct := range ts {
+				if ct.NoAddr {
+					flags["target-without-address"] = true
+				}
+			}
+		}
+	}
 	for f := range flags {
 		cls = append(cls, f)
-		nt = true
+		if f != "target-without-address" {
+			nt = true
+		}
 	}
 	b, _ := json.Marshal(c)
 	rec.Eval(nt, vkit.Digest(string(b)), cls...)
@@ -317,6 +334,11 @@ func genC10(t *rapid.T) *c10Case {
 						continue
 					}
 					ct := c10T{Hash: h, Series: int64(rapid.IntRange(0, 50).Draw(t, fmt.Sprintf("%s-h%d-s", l, h))), Total: int64(rapid.IntRange(0, 90).Draw(t, fmt.Sprintf("%s-h%d-t", l, h)))}
+					if old, ok := cur[h]; ok {
+						ct.NoAddr = old.NoAddr
+					} else {
+						ct.NoAddr = rapid.IntRange(0, 9).Draw(t, fmt.Sprintf("%s-h%d-noaddr", l, h)) == 0
+					}
 					if old, ok := cur[h]; ok {
 						// kept target: flip its state in 40% of the updates
 						ct.State = old.State
